@@ -19,7 +19,7 @@ CASES = {
     'root-ops':  {'ops': ROOT_OPS, 'history': 1, 'pad': True, 'cfg': {'entries': 2, 'alternatives': 1, 'no_version': True, 'ws_styles': 4}, 'allow_empty': True},
     'entry-ops': {'ops': ENTRY_OPS, 'history': 1, 'pad': True, 'cfg': {'entries': 2, 'alternatives': 2, 'no_version': True, 'ws_styles': 4}},
     'rel-ops':   {'ops': REL_OPS, 'history': 1, 'cfg': {'entries': 1, 'alternatives': 2, 'version_kinds': 1, 'ws_styles': 2}},
-    'rel-ops-rich': {'ops': REL_OPS, 'history': 1, 'cfg': {'entries': 1, 'alternatives': 1, 'archqual': True, 'archs': 1, 'negation': False, 'profile_groups': 1, 'profile_terms': 1, 'version_kinds': 1, 'ws_styles': 2}},
+    'rel-ops-rich': {'ops': REL_OPS, 'history': 1, 'cfg': {'entries': 1, 'alternatives': 1, 'archqual': True, 'archqual_space': True, 'archs': 1, 'negation': False, 'profile_groups': 1, 'profile_terms': 1, 'version_kinds': 1, 'ws_styles': 2}},
     'substvar':  {'ops': ROOT_OPS + ['entry_remove'], 'history': 1, 'cfg': {'entries': 2, 'alternatives': 1, 'no_version': True, 'substvars': True, 'ws_styles': 1}},
     'mixed':     {'ops': ROOT_OPS + ENTRY_OPS + ['set_version', 'set_architectures', 'add_profile', 'relation_remove'], 'history': 2, 'cfg': {'entries': 1, 'alternatives': 1, 'no_version': True, 'ws_styles': 1}},
     'built-entry': {'ops': ['push2', 'entry_remove_relation', 'relation_remove', 'entry_push', 'entry_replace'], 'history': 2, 'cfg': {'entries': 1, 'alternatives': 1, 'no_version': True, 'ws_styles': 1}, 'allow_empty': True},
@@ -120,7 +120,11 @@ class C11(Harness):
             else:
                 rl = relation(i, j); rr = Ref([rl], [0]); m = dict(model[i][j]); model[i] = model[i][:j] + [m] + model[i][j+1:]
                 if op == 'set_version':
-                    e.call_path('control', RL + 'Relation::set_version', [rr, SOME(Agg('tuple', [EnumV(vck, 'GreaterThanEqual'), version_parse(e, Str(val))]))]); m['version'] = ('>=', val)
+                    # every operator in the one-step relation families, >= elsewhere
+                    VOPS = [('>=', 'GreaterThanEqual'), ('<=', 'LessThanEqual'), ('=', 'Equal'), ('>>', 'GreaterThan'), ('<<', 'LessThan')]
+                    sym, vname = VOPS[e.choose('vop', 5)] if case['name'].startswith('rel-ops') else VOPS[0]
+                    rec['vop'] = sym
+                    e.call_path('control', RL + 'Relation::set_version', [rr, SOME(Agg('tuple', [EnumV(vck, vname), version_parse(e, Str(val))]))]); m['version'] = (sym, val)
                 elif op == 'unset_version': e.call_path('control', RL + 'Relation::set_version', [rr, NONE()]); m['version'] = None
                 elif op == 'drop_constraint': e.call_path('control', RL + 'Relation::drop_constraint', [rr]); m['version'] = None
                 elif op == 'set_archqual': e.call_path('control', RL + 'Relation::set_archqual', [rr, Str(val)]); m['archqual'] = val
@@ -166,7 +170,7 @@ class C11(Harness):
             elif name in ('entry_remove_relation', 'relation_remove'):
                 del model[i][j]
                 if not model[i]: del model[i]
-            elif name == 'set_version': model[i][j]['version'] = ['>=', op['value']]
+            elif name == 'set_version': model[i][j]['version'] = [op.get('vop', '>='), op['value']]
             elif name in ('unset_version', 'drop_constraint'): model[i][j]['version'] = None
             elif name == 'set_archqual': model[i][j]['archqual'] = op['value']
             elif name == 'set_architectures': model[i][j]['archs'] = [[False, op['value']]]
